@@ -12,6 +12,16 @@ pub struct Ast<'t> {
 impl<'t> Ast<'t> {
     pub fn from_source(source: &'t str) -> Result<'t, Self> {
         let processed = qasm::pre_process(source);
+        // A complete program ends with `;` or `}`. The lexer of qvnt-qasm never stops
+        // producing tokens for an identifier that runs to the very end of the input,
+        // so a source that ends inside an identifier is refused here.
+        let ends_in_ident = processed
+            .to_string()
+            .trim_end()
+            .ends_with(|c: char| c.is_alphanumeric() || c == '_');
+        if ends_in_ident && source.ends_with(|c: char| c.is_alphanumeric() || c == '_') {
+            return Err(Error::ParseError(qasm::Error::SourceError));
+        }
         let token_tree = qasm::lex(processed);
         if token_tree.is_empty() {
             Err(Error::EmptySource)
